@@ -203,6 +203,14 @@ def run(facts, rep, tier, ctx):
             k += 1
             rep.ob("R19.2", o["fn"], o["key"].split("|")[2], o["ok"], o["detail"], o["loc"])
     rep.floor("flush carry-over obligations", k, 2)
+    # (the async writer's publication is held to the same rule for every time field its entry type keeps — none today)
+    if World(facts, True).present():
+        ha = Handles(facts, True, D)
+        scratch_a = Report("xa")
+        ha.writer_rules(scratch_a, "R04.1", "R14.5", "R19.2")
+        for o in scratch_a.obligations:
+            if o["rule"] == "R19.2":
+                rep.ob("A/R19.2", o["fn"], o["key"].split("|")[2], o["ok"], o["detail"], o["loc"])
     # R19.3
     physrules.table_o_shape(facts, rep, "R19.3", ws)
     # R19.4
@@ -210,6 +218,10 @@ def run(facts, rep, tier, ctx):
     c04.overlay_read_delegation(facts, rep, ws, "R19.4o")
     c09.table_u(facts, rep, ws, "R19.4o", only=("set_creation_time", "set_modification_time", "set_access_time"))
     path_setter_rules(facts, rep, ws, D, "R19.4p")
+    # ... and metadata() of a path is the backend's answer now, not one remembered in the path value (a cache filled while the path
+    # was walked reports the old time stamps after a successful setter)
+    from ..pathrules import PathRules as _PR19
+    _PR19(facts, ws, D).backend_passthrough(rep, "R19.4m", ("metadata",))
     # what metadata reports and what the setters reach are the same entry: the overlay's resolver hands out the layer path that has the
     # entry, and for the overlay's own root the write layer's path itself (C09 R09.3)
     c09.resolver_rules(facts, rep, ws, "R19.4r")
@@ -285,6 +297,7 @@ def run(facts, rep, tier, ctx):
         k += c04.overlay_read_delegation(facts, A, wa, "R19.4o")
         k += c09.table_u(facts, A, wa, "R19.4o", only=("set_creation_time", "set_modification_time", "set_access_time"))
         k += path_setter_rules(facts, A, wa, D, "R19.4p")
+        k += _PR19(facts, wa, D).backend_passthrough(A, "R19.4m", ("metadata",))
         k += c09.resolver_rules(facts, A, wa, "R19.4r")
         mma = MemoryModel(facts, wa.memory, "AsyncFileSystem")
         over = sorted(op for op in FIELD_OF if op in mma.ops)
